@@ -511,6 +511,12 @@ def call_method(I, b: Bound, args, kwargs, e, fr):
             r = I.new_list(elem=Sym("part", recv, *args, prov=recv.prov), site=where(fr, e))
             I.obj(r).meta["split"] = (recv, tuple(args))
             return r
+        if name == "splitlines" and not args and not kwargs:
+            # the lines of a text: for what the rules ask (which line, which field) the same as split("\n")
+            nl = Const("\n")
+            r = I.new_list(elem=Sym("part", recv, nl, prov=recv.prov), site=where(fr, e))
+            I.obj(r).meta["split"] = (recv, (nl,))
+            return r
         if name == "items":
             return Sym("items", recv)
         if name in ("copy",):
